@@ -11,39 +11,43 @@ import (
 
 // GenOpts are the knobs of the program generator.
 type GenOpts struct {
-	Files          int  // number of files (1..5)
-	Structs        int  // struct-likes per file (approx.)
-	Services       bool // generate services
-	Consts         bool // generate constants
-	Defaults       bool // generate field defaults
-	Annotations    int  // 0 none, 1 some, 2 everywhere (incl. types, namespaces, args, throws)
-	NameStress     int  // 0 plain names, 1 naming-style stress, 2 collision pools
-	TypeAnn        bool // annotations and cpp_type on type expressions
-	OddIDs         bool // negative / implicit / sparse field ids
-	HexIDs         bool // hex/octal spelled field ids
-	ExpDoubles     bool // doubles with exponents
-	StructKeys     bool // struct-typed map keys
-	Recursion      bool // recursive types through optional fields / containers
-	MaxDepth       int  // container nesting (default 3)
-	FieldsMax      int  // max fields per struct (default 10)
-	Unions         bool
-	Exceptions     bool
-	CppIncludes    bool
-	SameBase       bool // two files with the same base name in different directories
-	ExtraNS        bool // namespaces for other languages / '*'
-	NoGoNS         bool // some files without a go namespace
-	OnlyWireable   bool // restrict to shapes the value generator and codecs handle (always true today)
-	HardLiterals   bool // string literals with both quotes, backslashes, '&', '<', '#', unicode
-	GoEscapes      bool // restrict backslash sequences in literals to escapes Go accepts (C06)
-	StructConsts   bool // constants / defaults of struct type
-	EmptyDefs      bool // empty structs / services / enums
-	UnusedIncl     bool // includes nothing refers to
-	BigFieldIDs    bool // ids > 63 and up to 32767
-	Preserve       bool // some struct-likes carry @preserve
-	UnionDefault   bool // at most one default in a union
-	TypedefChains  bool // extra typedef-of-typedef chains (crossing files)
-	PrefixNames    bool // definitions whose name equals an include prefix
-	TypedefEnumSel bool // enum values selected through a typedef (Typedef.VALUE): accepted by the analyser, rejected by the Go backend
+	Files                  int  // number of files (1..5)
+	Structs                int  // struct-likes per file (approx.)
+	Services               bool // generate services
+	Consts                 bool // generate constants
+	Defaults               bool // generate field defaults
+	Annotations            int  // 0 none, 1 some, 2 everywhere (incl. types, namespaces, args, throws)
+	NameStress             int  // 0 plain names, 1 naming-style stress, 2 collision pools
+	TypeAnn                bool // annotations and cpp_type on type expressions
+	OddIDs                 bool // negative / implicit / sparse field ids
+	HexIDs                 bool // hex/octal spelled field ids
+	ExpDoubles             bool // doubles with exponents
+	StructKeys             bool // struct-typed map keys
+	Recursion              bool // recursive types through optional fields / containers
+	MaxDepth               int  // container nesting (default 3)
+	FieldsMax              int  // max fields per struct (default 10)
+	Unions                 bool
+	Exceptions             bool
+	CppIncludes            bool
+	SameBase               bool // two files with the same base name in different directories
+	ExtraNS                bool // namespaces for other languages / '*'
+	NoGoNS                 bool // some files without a go namespace
+	OnlyWireable           bool // restrict to shapes the value generator and codecs handle (always true today)
+	HardLiterals           bool // string literals with both quotes, backslashes, '&', '<', '#', unicode
+	GoEscapes              bool // restrict backslash sequences in literals to escapes Go accepts (C06)
+	StructConsts           bool // constants / defaults of struct type
+	EmptyDefs              bool // empty structs / services / enums
+	UnusedIncl             bool // includes nothing refers to
+	BigFieldIDs            bool // ids > 63 and up to 32767
+	Preserve               bool // some struct-likes carry @preserve
+	UnionDefault           bool // at most one default in a union
+	TypedefChains          bool // extra typedef-of-typedef chains (crossing files)
+	PrefixNames            bool // definitions whose name equals an include prefix
+	TypedefContainerConsts bool // non-empty list/map literals whose declared type is a typedef of a container (crashes the Go backend: known finding)
+	ForeignStructIdents    bool // identifiers inside literals of structs defined in another file (Go backend resolves them in the wrong file: rejected)
+	SameNS                 bool // some files share one go namespace (one Go package from several IDL files)
+	Sparse                 bool // files randomly lack whole definition kinds (no enum / no const / no service / no typedef)
+	TypedefEnumSel         bool // enum values selected through a typedef (Typedef.VALUE): accepted by the analyser, rejected by the Go backend
 }
 
 // DefaultOpts is a broad configuration valid for the Go backend.
@@ -54,23 +58,24 @@ func DefaultOpts() GenOpts {
 }
 
 type gen struct {
-	rng   *vlib.Rng
-	o     GenOpts
-	p     *Program
-	used  map[*File]map[string]bool // global names per file
-	deck  int                       // round-robin coverage deck position
-	uid   int
-	depth int
+	rng     *vlib.Rng
+	o       GenOpts
+	p       *Program
+	used    map[*File]map[string]bool // global names per file
+	deck    int                       // round-robin coverage deck position
+	uid     int
+	depth   int
+	noIdent int
 }
 
 var typeWords = []string{"User", "Item", "Order", "Req", "Resp", "Node", "Tree", "Info", "Meta", "Pair", "Entry", "Cfg", "Msg", "Evt", "Doc", "Blob"}
 var stressTypeWords = []string{"user_info", "HTTPReq", "url_map", "item2d", "Api_v1", "x_data", "UUIDRef", "my_URL", "jsonRPC", "id_set", "Tls_cfg", "a1_b2"}
-var collideTypeWords = []string{"get_args", "put_result", "New_thing", "NewThing", "call_Args", "foo_Result", "Error", "String_", "ReadReq", "write_out"}
+var collideTypeWords = []string{"user_info", "UserInfo", "User_Info", "Item_", "item", "ITEM", "get_args", "put_result", "New_thing", "NewThing", "call_Args", "foo_Result", "Error", "String_", "ReadReq", "write_out"}
 var fieldWords = []string{"id", "name", "count", "flag", "data", "items", "tags", "extra", "left", "right", "value", "kind", "ts", "score", "owner", "parent", "attrs", "body", "code", "ratio"}
-var stressFieldWords = []string{"user_id", "userName", "URL", "http_code", "x1", "a_b_c", "Id", "uuid", "json_body", "ip_addr", "TLS", "_under", "trail_", "Mixed_Case_name"}
-var collideFieldWords = []string{"read", "write", "string", "error", "get_x", "is_set_x", "deep_equal", "type", "func", "range", "p", "err", "ctx", "result", "args", "success", "field_mask", "default"}
+var stressFieldWords = []string{"user_id", "userName", "URL", "http_code", "x1", "a_b_c", "Id", "uuid", "json_body", "ip_addr", "TLS", "trail_", "Mixed_Case_name"}
+var collideFieldWords = []string{"user_id", "userId", "UserID", "User_Id", "Name", "NAME", "name_", "get_name", "GetName", "is_set_name", "read", "write", "string", "error", "get_x", "is_set_x", "deep_equal", "type", "func", "range", "p", "err", "ctx", "result", "args", "success", "field_mask", "default"}
 var funcWords = []string{"get", "put", "list_all", "ping", "query", "update", "remove", "echo", "Scan", "fetchMany", "do_it", "run2"}
-var collideFuncWords = []string{"process", "send", "recv", "close", "read", "write", "string", "type", "client", "Get_args"}
+var collideFuncWords = []string{"get_item", "getItem", "GetItem", "Ping", "PING", "process", "send", "recv", "close", "read", "write", "string", "type", "client", "Get_args"}
 var enumWords = []string{"Color", "Mode", "State", "Level", "kind_e", "Op", "Phase"}
 var enumValWords = []string{"RED", "GREEN", "BLUE", "ON", "OFF", "LOW", "MID", "HIGH", "first", "second", "Third", "UNKNOWN", "A", "B", "C", "alpha_1"}
 var constWords = []string{"MAX", "MIN", "default_name", "Pi", "LIMITS", "table", "K1", "cfg_map", "EMPTY", "names", "HTTP_PORT", "version_id"}
@@ -98,7 +103,7 @@ func (g *gen) globalName(f *File, pool, stress, collide []string) string {
 			g.uid++
 			w = fmt.Sprintf("%s%d", w, g.uid)
 		}
-		if idlReserved[w] || g.used[f][w] {
+		if idlReserved[w] || g.used[f][w] || g.used[f]["\x00other:"+normName(w)] {
 			continue
 		}
 		// avoid names equal to an include prefix of this file or of any file (C05 handles that separately)
@@ -107,6 +112,8 @@ func (g *gen) globalName(f *File, pool, stress, collide []string) string {
 	}
 }
 
+func normName(w string) string { return strings.ToLower(strings.ReplaceAll(w, "_", "")) }
+
 func (g *gen) localName(used map[string]bool, pool, stress, collide []string) string {
 	for try := 0; ; try++ {
 		w := g.pickWord(pool, stress, collide, g.o.NameStress)
@@ -114,10 +121,14 @@ func (g *gen) localName(used map[string]bool, pool, stress, collide []string) st
 			g.uid++
 			w = fmt.Sprintf("%s%d", w, g.uid)
 		}
-		if idlReserved[w] || used[strings.ToLower(strings.ReplaceAll(w, "_", ""))] {
+		key := strings.ToLower(strings.ReplaceAll(w, "_", ""))
+		if g.o.NameStress >= 2 {
+			key = w // names that collide after Go naming (foo_bar / fooBar / FooBar) are wanted
+		}
+		if idlReserved[w] || used[key] {
 			continue
 		}
-		used[strings.ToLower(strings.ReplaceAll(w, "_", ""))] = true
+		used[key] = true
 		return w
 	}
 }
@@ -360,6 +371,9 @@ func (g *gen) genFields(f *File, d *Def, kind string, n int) []*Field {
 	prev := int32(0)
 	for i := 0; i < n; i++ {
 		fl := &Field{Name: g.localName(used, fieldWords, stressFieldWords, collideFieldWords)}
+		for kind == "throws" && normName(fl.Name) == "success" { // collides with the synthesized result field (known finding)
+			fl.Name = g.localName(used, fieldWords, stressFieldWords, nil)
+		}
 		// id: explicit, or implicit = previous + 1 (first = 1)
 		fl.ExplicitID = true
 		fl.ID = prev + 1
@@ -411,7 +425,17 @@ func (g *gen) genFields(f *File, d *Def, kind string, n int) []*Field {
 		// type
 		switch kind {
 		case "throws":
-			ex := g.pickDef(f, func(x *Def) bool { return x.Kind == KException })
+			ex := g.pickDef(f, func(x *Def) bool {
+				if x.Kind != KException {
+					return false
+				}
+				for _, prev := range out {
+					if prev.Type.Resolve().Ref == x {
+						return false // two throws of one exception type make an unreachable (and uncompilable) case
+					}
+				}
+				return true
+			})
 			if ex == nil {
 				continue
 			}
@@ -459,6 +483,22 @@ func (g *gen) genStructLike(f *File, kind DefKind) *Def {
 	return d
 }
 
+// funcName draws a function name that is unique in the service and its bases after Go naming.
+func (g *gen) funcName(used map[string]bool) string {
+	for try := 0; ; try++ {
+		w := g.pickWord(funcWords, nil, collideFuncWords, g.o.NameStress)
+		if try > 3 {
+			g.uid++
+			w = fmt.Sprintf("%s%d", w, g.uid)
+		}
+		if idlReserved[w] || used[normName(w)] {
+			continue
+		}
+		used[normName(w)] = true
+		return w
+	}
+}
+
 func (g *gen) genService(f *File) *Def {
 	d := &Def{Kind: KService, File: f, Ann: g.anns("def")}
 	d.Name = g.globalName(f, []string{"Svc", "Api", "Store", "Gateway", "Calc"}, []string{"user_service", "HTTPApi"}, []string{"Client_x", "Processor_y"})
@@ -477,7 +517,7 @@ func (g *gen) genService(f *File) *Def {
 		}
 	}
 	for i := 0; i < n; i++ {
-		fn := &Func{Name: g.localName(used, funcWords, nil, collideFuncWords), Ann: g.anns("func")}
+		fn := &Func{Name: g.funcName(used), Ann: g.anns("func")}
 		switch g.rng.Intn(6) {
 		case 0:
 			fn.Oneway, fn.Void = true, true
@@ -530,7 +570,7 @@ func intRange(cat string) (int64, int64) {
 // defined (no self reference).  Returns nil when no finite initializer exists (recursion).
 func (g *gen) genValue(f *File, t *Type, depth int, exclude *Def) *Value {
 	// reference to an existing constant of the same type
-	if depth < 3 && g.rng.Chance(1, 6) {
+	if depth < 3 && g.noIdent == 0 && g.rng.Chance(1, 6) {
 		if c := g.pickDef(f, func(d *Def) bool {
 			return d.Kind == KConst && d != exclude && d.Value != nil && sameType(d.Type, t) && constDependsOn(d, exclude) == false
 		}); c != nil {
@@ -592,7 +632,7 @@ func (g *gen) genValue(f *File, t *Type, depth int, exclude *Def) *Value {
 			return &Value{Kind: VInt, Int: 0}
 		}
 		ev := e.EnumVals[g.rng.Intn(len(e.EnumVals))]
-		if g.rng.Chance(1, 4) {
+		if g.rng.Chance(1, 4) || g.noIdent > 0 {
 			return &Value{Kind: VInt, Int: ev.Value, ToEnum: e, ToEnumVal: ev} // enum by number
 		}
 		// selector: the enum itself, or a typedef of it when the type was written through one
@@ -618,6 +658,9 @@ func (g *gen) genValue(f *File, t *Type, depth int, exclude *Def) *Value {
 		if depth > 2 {
 			n = g.rng.Intn(2)
 		}
+		if t.Ref != nil && !g.o.TypedefContainerConsts {
+			n = 0
+		}
 		v := &Value{Kind: VList, List: []*Value{}}
 		seen := map[string]bool{}
 		for i := 0; i < n; i++ {
@@ -639,6 +682,9 @@ func (g *gen) genValue(f *File, t *Type, depth int, exclude *Def) *Value {
 		n := g.rng.Intn(4)
 		if depth > 2 {
 			n = g.rng.Intn(2)
+		}
+		if t.Ref != nil && !g.o.TypedefContainerConsts {
+			n = 0
 		}
 		v := &Value{Kind: VMap, Map: [][2]*Value{}}
 		seen := map[string]bool{}
@@ -662,6 +708,10 @@ func (g *gen) genValue(f *File, t *Type, depth int, exclude *Def) *Value {
 		}
 		sd := r.Ref
 		v := &Value{Kind: VMap, Map: [][2]*Value{}}
+		if sd.File != f && !g.o.ForeignStructIdents {
+			g.noIdent++
+			defer func() { g.noIdent-- }()
+		}
 		fields := sd.Fields
 		if sd.Kind == KUnion {
 			if len(fields) == 0 {
@@ -800,6 +850,8 @@ func Generate(rng *vlib.Rng, o GenOpts) *Program {
 		g.p.Files = append(g.p.Files, f)
 		g.used[f] = map[string]bool{}
 	}
+	sameNSPick := o.SameNS && rng.Chance(2, 3)
+	sharedNS := map[*File]*File{}
 	// build leaf files first
 	for i := o.Files - 1; i >= 0; i-- {
 		f := g.p.Files[i]
@@ -829,6 +881,17 @@ func Generate(rng *vlib.Rng, o GenOpts) *Program {
 		if nsName == "vf.main" {
 			nsName = "vf.mainpkg"
 		}
+		if o.SameNS && i+1 < o.Files && sameNSPick {
+			// share the package of the next file (which this file includes): global names must be disjoint
+			next := g.p.Files[i+1]
+			nsName = next.GoNamespace()
+			for n := range g.used[next] {
+				g.used[f][n] = true
+				g.used[f]["\x00other:"+normName(n)] = true
+			}
+			sharedNS[f] = next
+			sameNSPick = false
+		}
 		if !(o.NoGoNS && rng.Chance(1, 3)) {
 			f.Namespaces = append(f.Namespaces, &Namespace{Lang: "go", Name: nsName, Ann: g.anns("ns")})
 		}
@@ -853,7 +916,12 @@ func Generate(rng *vlib.Rng, o GenOpts) *Program {
 			}
 		}
 		// enums
-		for k := rng.Range(1, 2); k > 0; k-- {
+		sparse := func() bool { return o.Sparse && rng.Chance(1, 3) }
+		nEnums := rng.Range(1, 2)
+		if sparse() {
+			nEnums = 0
+		}
+		for k := nEnums; k > 0; k-- {
 			f.Defs = append(f.Defs, g.genEnum(f))
 		}
 		// typedefs, struct-likes interleaved
@@ -871,7 +939,9 @@ func Generate(rng *vlib.Rng, o GenOpts) *Program {
 			}
 			f.Defs = append(f.Defs, g.genStructLike(f, kind))
 		}
-		f.Defs = append(f.Defs, g.genTypedef(f))
+		if !sparse() {
+			f.Defs = append(f.Defs, g.genTypedef(f))
+		}
 		if o.TypedefChains {
 			for k := rng.Range(1, 4); k > 0; k-- {
 				if td := g.pickDef(f, func(d *Def) bool { return d.Kind == KTypedef }); td != nil {
@@ -918,7 +988,7 @@ func Generate(rng *vlib.Rng, o GenOpts) *Program {
 				f.Defs = append(f.Defs, d)
 			}
 		}
-		if o.Consts {
+		if o.Consts && !sparse() {
 			for k := rng.Range(2, 6); k > 0; k-- {
 				f.Defs = append(f.Defs, g.genConst(f))
 			}
@@ -926,9 +996,26 @@ func Generate(rng *vlib.Rng, o GenOpts) *Program {
 		if o.Defaults {
 			g.addDefaults(f)
 		}
-		if o.Services {
+		if o.Services && !sparse() {
 			for k := rng.Range(1, 2); k > 0; k-- {
-				f.Defs = append(f.Defs, g.genService(f))
+				sv := g.genService(f)
+				if sharedNS[f] != nil && sv.Extends == nil {
+					// a base service in another IDL file of the same Go package
+					if b := sharedNS[f].DefsOf(KService); len(b) > 0 {
+						ok := true
+						for _, fn := range b[0].Funcs {
+							for _, fn2 := range sv.Funcs {
+								if strings.EqualFold(strings.ReplaceAll(fn.Name, "_", ""), strings.ReplaceAll(fn2.Name, "_", "")) {
+									ok = false
+								}
+							}
+						}
+						if ok {
+							sv.Extends = b[0]
+						}
+					}
+				}
+				f.Defs = append(f.Defs, sv)
 			}
 		}
 		// source order differs from dependency order
